@@ -60,14 +60,25 @@ Proof. vm_compute. reflexivity. Qed.
 Theorem C20_anyvars : forall g cs v, In v (anyvars (TComp g cs)) <-> any_occurs_list v cs.
 Proof. intros. exact (proj2 anyvars_spec cs v). Qed.
 
-(* labeling: a compound is labeled field by field, like a list *)
+(* labeling: a compound is labeled field by field, like a list; a typed field that is not itself a
+   term (Option<..>, the reserved tag) is looked through *)
 Theorem C20_label : forall defs n g cs st,
   wk (st_smap st) (TComp g cs) = TComp g cs ->
-  start defs (S n) (CForceAns (TComp g cs)) st = start defs n (from_array BFS (map CForceAns (terms_to_list cs))) st.
+  start defs (S n) (CForceAns (TComp g cs)) st = start defs n (from_array BFS (map CForceAns (flat_children cs))) st.
 Proof. intros defs n g cs st H. cbn [start]. rewrite H. reflexivity. Qed.
+Theorem C20_label_plain_fields : forall cs,
+  (forall t, In t (terms_to_list cs) -> match t with TComp g _ => g <> opt_tag | _ => True end) ->
+  flat_children cs = terms_to_list cs.
+Proof.
+  induction cs as [|t r IH]; [reflexivity|]. cbn [flat_children terms_to_list]. intros H.
+  rewrite IH by (intros u Hu; apply H; right; exact Hu).
+  specialize (H t (or_introl eq_refl)). destruct t as [l|v a| |h tl|tg ts]; try reflexivity.
+  destruct (Nat.eqb tg opt_tag) eqn:E; [apply Nat.eqb_eq in E; contradiction|reflexivity].
+Qed.
 
 Check C20_same_type : forall f s ext g c1 c2, unify (S f) s ext (TComp g c1) (TComp g c2) = unify_list f s ext c1 c2.
 Print Assumptions C20_same_type.
+Print Assumptions C20_label_plain_fields.
 Print Assumptions C20_different_type.
 Print Assumptions C20_compound_vs_other.
 Print Assumptions C20_arity.
